@@ -1,5 +1,7 @@
 // Copyright 2020 TiKV Project Authors. Licensed under Apache-2.0.
 
+use std::collections::VecDeque;
+
 use rtrb::Consumer;
 use rtrb::Producer;
 use rtrb::PushError;
@@ -10,7 +12,7 @@ pub fn bounded<T>(capacity: usize) -> (Sender<T>, Receiver<T>) {
     (
         Sender {
             tx,
-            pending_messages: Vec::new(),
+            pending_messages: VecDeque::new(),
         },
         Receiver { rx },
     )
@@ -18,7 +20,7 @@ pub fn bounded<T>(capacity: usize) -> (Sender<T>, Receiver<T>) {
 
 pub struct Sender<T> {
     tx: Producer<T>,
-    pending_messages: Vec<T>,
+    pending_messages: VecDeque<T>,
 }
 
 pub struct Receiver<T> {
@@ -33,11 +35,12 @@ pub struct ChannelClosed;
 
 impl<T> Sender<T> {
     pub fn send(&mut self, value: T) -> Result<(), ChannelFull> {
-        while let Some(value) = self.pending_messages.pop() {
+        // Pending messages are replayed oldest first so that they keep their order.
+        while let Some(value) = self.pending_messages.pop_front() {
             #[cfg(fastrace_verif)]
             self.verif_before_push(0);
             if let Err(PushError::Full(value)) = self.tx.push(value) {
-                self.pending_messages.push(value);
+                self.pending_messages.push_front(value);
                 return Err(ChannelFull);
             }
         }
@@ -48,19 +51,25 @@ impl<T> Sender<T> {
     }
 
     pub fn force_send(&mut self, value: T) {
-        while let Some(value) = self.pending_messages.pop() {
+        while let Some(value) = self.pending_messages.pop_front() {
             #[cfg(fastrace_verif)]
             self.verif_before_push(0);
             if let Err(PushError::Full(value)) = self.tx.push(value) {
-                self.pending_messages.push(value);
+                self.pending_messages.push_front(value);
                 break;
             }
+        }
+
+        // Never let a new message overtake the ones that are still pending.
+        if !self.pending_messages.is_empty() {
+            self.pending_messages.push_back(value);
+            return;
         }
 
         #[cfg(fastrace_verif)]
         self.verif_before_push(1);
         if let Err(PushError::Full(value)) = self.tx.push(value) {
-            self.pending_messages.push(value);
+            self.pending_messages.push_back(value);
             #[cfg(fastrace_verif)]
             crate::verif::point(crate::verif::P_PARKED, self.pending_messages.len() as u64, 0);
         }
